@@ -201,6 +201,9 @@ class Ctx:
         self.pid, self.tier, self.seed, self.replay = pid, tier, seed, replay
         self.quick = tier == "quick"
         self.work = WORK / pid
+        if os.environ.get("VERIF_REPO", "/repo") != "/repo":
+            # a scratch tree (seeded change / refactoring): its own work directory, so that several can run side by side
+            self.work = WORK / ("%s.scratch%d" % (pid, os.getpid()))
         if self.work.exists():
             shutil.rmtree(self.work, ignore_errors=True)
         self.work.mkdir(parents=True, exist_ok=True)
@@ -419,6 +422,8 @@ class Ctx:
         print("%s %s: states=%d transitions=%d traces=%d evals=%d nontrivial=%d violations=%d wall=%.1fs" %
               (self.pid, self.tier, self.states, self.transitions, self.traces, cov["evaluations"],
                len(self.nontrivial), sum(v["instances"] for v in self.violations), wall))
+        if ".scratch" in self.work.name and not self.violations:
+            shutil.rmtree(self.work, ignore_errors=True)       # scratch work directories of quiet runs are not kept
         return 1 if self.violations else 0
 
 
